@@ -74,6 +74,14 @@ pub fn c13_cases(rng: &mut Rng, tier: &str) -> (Vec<Case>, bool) {
         }
     }
     let _ = total;
+    // an illegal character of every UTF-8 class - first and last code point of each encoded length, each lead byte E0 / ED / EF /
+    // F0 / F4 - at the start, after a token, before more text
+    for ch in ["\u{80}", "\u{a3}", "\u{bf}", "\u{7ff}", "\u{800}", "\u{905}", "\u{e01}", "\u{f00}", "\u{fff}", "\u{1000}", "\u{d7ff}", "\u{e000}", "\u{fffd}", "\u{ffff}", "\u{10000}", "\u{3ffff}", "\u{40000}", "\u{fffff}", "\u{100000}", "\u{10ffff}"] {
+        for tmpl in ["{}", "PRINT {}5", "PRINT 1 {}", "A{}B", "10 PRINT {} : REM x", "  {}  "] {
+            let s = tmpl.replace("{}", ch);
+            cases.push(Case { ops: vec![format!("tok {} 0", hexs(&s))], checks: vec!["ranges-exact 0".to_string()], tag: "illegal-character-classes".into(), nontrivial: true, show: format!("{:?}", s) });
+        }
+    }
     // long runs of blanks (around 255 / 256 / 65535 bytes) INSIDE every multi-character token: between the letters of each
     // keyword, the two characters of an operator, the digits of a numeral, the letters of a name
     let words = ["PRINT", "GOTO", "GOSUB", "RETURN", "INPUT", "THEN", "ELSE", "NEXT", "STEP", "RESTORE", "READ", "DATA", "REM", "DEF", "DIM", "LET", "FOR", "TO", "IF", "END", "STOP", "AND", "OR", "NOT", "<=", ">=", "<>", "123", "1.5", "AB1", "X$"];
@@ -416,6 +424,15 @@ pub fn c12_cases(rng: &mut Rng, tier: &str) -> (Vec<Case>, bool) {
         // compare everything printed by the two runs (collected transcripts) and the two listings
         let split = w.ops.iter().rposition(|o| o == "new 0 0").unwrap();
         cases.push(Case { ops: w.ops.clone(), checks: vec![format!("transcript-eq 0-{} {}-{}", split - 1, split, w.ops.len() - 1)], tag: "session-spelling".into(), nontrivial: true, show: format!("{:?} ~ {:?}", a, b) });
+    }
+    // however many blanks a line holds - 50000 after one letter of a name, 600 after each of 90 letters - a name later on the line
+    // that is directly followed by a keyword is split exactly as in the line without them
+    for (padded, plain) in [
+        (format!("10 A{}=1:IF A THEN PRINT 7", " ".repeat(50_000)), "10 A=1:IF A THEN PRINT 7".to_string()),
+        (format!("10 {}=1:IFBTHENPRINTB", "Q".repeat(90).chars().map(|c| format!("{}{}", c, " ".repeat(600))).collect::<String>()), format!("10 {}=1:IFBTHENPRINTB", "Q".repeat(90))),
+        (format!("10 X{}Y=2 : FORI=XTOY", "\t".repeat(48_000)), "10 XY=2 : FORI=XTOY".to_string()),
+    ] {
+        cases.push(Case { ops: vec![format!("tok {} 2", hexs(&padded)), format!("tok {} 2", hexs(&plain))], checks: vec!["same-tokens 0 1".into()], tag: "impl-only:very-many-blanks".into(), nontrivial: true, show: format!("{} bytes ~ {:?}", padded.len(), plain) });
     }
     // DATA blanks
     let nd = if tier == "thorough" { 20_000 } else { 1_500 };
